@@ -93,9 +93,10 @@ class World:
             import pyairtouch
             import pyairtouch.api as api
             model = api.AirTouchModel.AIRTOUCH_4 if self.proto == "at4" else api.AirTouchModel.AIRTOUCH_5
+            self._tap_sockets()
             at = pyairtouch.connect(model, "console", 9004 if self.proto == "at4" else 9005)
             self.objs["airtouch"] = at
-            self.objs["socket"] = at._socket
+            self.objs["socket"] = self.sockets[-1]      # the socket the client built for itself (public class, no private attribute)
         elif self.target == "heartbeat":
             import pyairtouch.comms.heartbeat as HB
             reg = self._registry(fresh=True)
@@ -121,8 +122,26 @@ class World:
             fake.socket = FakeSock
             D.socket = fake
             self._D = D
+            self._tap_sockets()
         else:
             raise MachineryError(f"unknown target {self.target}")
+
+    def _tap_sockets(self):
+        """Remember every AirTouchSocket that gets constructed (the class and its port attribute are public)."""
+        S = self.S
+        self.sockets = []
+        if getattr(S.AirTouchSocket, "_verif_tapped", False):
+            S.AirTouchSocket._verif_sink = self.sockets
+            return
+        orig = S.AirTouchSocket.__init__
+        world_sink = self.sockets
+
+        def init(this, *a, **kw):
+            orig(this, *a, **kw)
+            S.AirTouchSocket._verif_sink.append(this)
+        S.AirTouchSocket._verif_sink = world_sink
+        S.AirTouchSocket.__init__ = init
+        S.AirTouchSocket._verif_tapped = True
 
     def _registry(self, fresh):
         import importlib
@@ -550,11 +569,42 @@ class World:
 
         task.add_done_callback(done)
 
+    def op_call_seq(self, op):
+        """One user coroutine that makes several calls one after the other WITHOUT yielding in between
+        (`await s.close(); s.open_socket()`): call / ret are logged inline."""
+        steps = []
+        for c in op["calls"]:
+            tgt = self._target(c.get("target", "socket"))
+            if tgt is None:
+                self.ev("skipped", what="call_seq")
+                return
+            steps.append((c, tgt, [self._arg(a) for a in c.get("args", [])]))
+
+        async def seq():
+            for c, tgt, args in steps:
+                log = {k: v for k, v in c.items()}
+                if c["method"] == "send" and c.get("target", "socket") == "socket" and len(args) == 2:
+                    log["desc"] = P.project(args[0])
+                    log["retries"] = int(args[1].max_retries)
+                    log["life"] = ms(args[1].max_lifetime)
+                self.ev("call", **log)
+                try:
+                    r = getattr(tgt, c["method"])(*args)
+                    if asyncio.iscoroutine(r):
+                        r = await r
+                    self.ev("ret", id=c["id"], res="ok", val=self._val(r))
+                except Exception as ex:
+                    self.ev("ret", id=c["id"], res=type(ex).__name__, val=[])
+        self.calls[steps[0][0]["id"]] = self.loop.create_task(seq())
+
     def _val(self, v):
         if self.target == "discover" and isinstance(v, list):
             out = []
-            for at in v:
-                out.append({"model": at.model.name, "host": P.text(at.host), "port": at._socket.port,
+            # clients are built one after the other, each with its own socket: the k-th client owns the k-th
+            # socket created during the call
+            made = self.sockets[-len(v):] if v else []
+            for k, at in enumerate(v):
+                out.append({"model": at.model.name, "host": P.text(at.host), "port": made[k].port if k < len(made) else -1,
                             "airtouch_id": P.text(at.airtouch_id), "serial": P.text(at.serial),
                             "name": P.text(at.name)})
             return out
